@@ -20,7 +20,7 @@ CONSTANTS Users, CACHE, QMEMD, QMEMP, KEEP
 VARIABLES hist,     \* hist[u]: first-time answers of the session, oldest first (trimmed to KEEP)
           red       \* the re-delivery being processed in the current server step
 
-MRInit == hist = [u \in Users |-> <<>>] /\ red = [on |-> FALSE, incache |-> FALSE, inwin |-> FALSE, orig |-> ""]
+MRInit == hist = [u \in Users |-> <<>>] /\ red = [on |-> FALSE, incache |-> FALSE, inwin |-> FALSE, orig |-> "", pending |-> FALSE]
 
 LastN(s, n) == IF Len(s) > n THEN SubSeq(s, Len(s) - n + 1, Len(s)) ELSE s
 Names(s) == {s[i].nm : i \in 1..Len(s)}
@@ -33,13 +33,19 @@ OrigPl(u, nm) == LET s == hist[u]
                      i == CHOOSE i \in 1..Len(s) : s[i].nm = nm /\ \A j \in 1..Len(s) : s[j].nm = nm => j <= i
                  IN s[i].pl
 
-NoRed == [on |-> FALSE, incache |-> FALSE, inwin |-> FALSE, orig |-> ""]
+NoRed == [on |-> FALSE, incache |-> FALSE, inwin |-> FALSE, orig |-> "", pending |-> FALSE]
 
 NewSession(u) == u \in Users /\ hist' = [hist EXCEPT ![u] = <<>>] /\ UNCHANGED red
 
+\* hist lists DISTINCT queries: an answer to a query whose (case-folded) name is still inside the memory window is a
+\* repeat of that query (the copy the relay re-sent may even have arrived before the original) and adds no entry
+Record(h, u, nm, lk, kind, pl) ==
+    IF InQmem(u, lk, kind) THEN h
+    ELSE [h EXCEPT ![u] = LastN(Append(@, [nm |-> nm, lk |-> lk, kind |-> kind, pl |-> pl]), KEEP)]
+
 AnsFirst(u, nm, lk, kind, pl) ==
     /\ u \in Users
-    /\ hist' = [hist EXCEPT ![u] = LastN(Append(@, [nm |-> nm, lk |-> lk, kind |-> kind, pl |-> pl]), KEEP)]
+    /\ hist' = Record(hist, u, nm, lk, kind, pl)
     /\ UNCHANGED red
 
 \* the re-delivered datagram is read by the server: the windows are evaluated on the history BEFORE this step
@@ -47,7 +53,7 @@ RedBegin(u, nm, lk, kind, pending) ==
     /\ u \in Users
     /\ red' = [on |-> TRUE, incache |-> InCache(u, nm),
                inwin |-> (InCache(u, nm) \/ InQmem(u, lk, kind) \/ pending),
-               orig |-> IF InCache(u, nm) THEN OrigPl(u, nm) ELSE ""]
+               orig |-> IF InCache(u, nm) THEN OrigPl(u, nm) ELSE "", pending |-> pending]
     /\ UNCHANGED hist
 
 \* end of that server step
@@ -55,10 +61,11 @@ RedEnd(u, nm, lk, kind, pos0, pos1, answered, pl) ==
     /\ red.on
     /\ red.inwin => pos0 = pos1
     /\ red.incache => (answered /\ pl = red.orig)
-    \* a re-delivery that is NOT a cache replay but gets a real (header-carrying) answer in the same step was
+    \* a re-delivery that is neither a cache replay nor a remembered duplicate of a pending query (that one shares
+    \* the original's answer and its single cache entry) but gets a real (header-carrying) answer in the same step was
     \* processed as a new query: its answer enters the server's memories like any first-time answer
-    /\ hist' = IF ~red.incache /\ answered /\ Len(pl) >= 4
-               THEN [hist EXCEPT ![u] = LastN(Append(@, [nm |-> nm, lk |-> lk, kind |-> kind, pl |-> pl]), KEEP)]
+    /\ hist' = IF ~red.incache /\ ~red.pending /\ answered /\ Len(pl) >= 4
+               THEN Record(hist, u, nm, lk, kind, pl)
                ELSE hist
     /\ red' = NoRed
 
